@@ -6,6 +6,9 @@ package c17
 // removals (present / missing), refused adds (maxLinks) and reloads from its node; after
 // construction and after every step the tracked estimate (read through the verif-tagged bridge
 // BasicDirectory.VerifEstimatedSize) must equal len(GetNode().RawData()).
+//
+// The projected size used inside the Basic->HAMT decision itself (it never reaches the tracked
+// field) is checked by the sub-check "decision" in decision_test.go.
 
 import (
 	"context"
